@@ -31,7 +31,7 @@ func runSched(cmd string, args []string) error {
 	pairs2 := fl.Int("pairs2", 20, "sampled programs of two goroutines with two calls each")
 	shard := fl.Int("shard", 0, "shard")
 	nshard := fl.Int("nshard", 1, "shards")
-	names := fl.String("names", "a,b,d,e,c", "names probed")
+	names := fl.String("names", "a,b,d,e,c,l", "names probed")
 	_ = fl.Parse(args)
 
 	of, err := os.Create(*out)
@@ -66,7 +66,7 @@ func runStress(args []string) error {
 	progs := fl.Int("progs", 100, "programs")
 	maxG := fl.Int("maxg", 16, "goroutines per large program at most")
 	length := fl.Int("len", 30, "calls per goroutine in large programs")
-	names := fl.String("names", "a,b,d,e,c", "names probed")
+	names := fl.String("names", "a,b,d,e,c,l", "names probed")
 	_ = fl.Parse(args)
 
 	of, err := os.Create(*out)
